@@ -1323,8 +1323,8 @@ fn try_unwrap_lit_prop_name(prop_name: &PropName) -> Option<Cow<PropName>> {
         PropName::Ident(..) | PropName::Str(..) | PropName::Num(..) | PropName::BigInt(..) => {
             Some(Cow::Borrowed(prop_name))
         }
+        // `[key]: value` with an identifier is a dynamic key, not the key `key`
         PropName::Computed(ComputedPropName { expr, .. }) => match &**expr {
-            Expr::Ident(ident) => Some(Cow::Owned(PropName::Ident(ident.clone().into()))),
             Expr::Lit(Lit::Str(str)) => Some(Cow::Owned(PropName::Str(str.clone()))),
             Expr::Lit(Lit::Num(num)) => Some(Cow::Owned(PropName::Num(num.clone()))),
             Expr::Lit(Lit::BigInt(bigint)) => Some(Cow::Owned(PropName::BigInt(bigint.clone()))),
